@@ -189,9 +189,20 @@ def do_aes_ctr(case):
         if start + blocks >= (1 << (8 * (16 - ivl))) - 1:
             start = max(0, (1 << (8 * (16 - ivl))) - 2 - blocks)
         c.counter = bytearray(iv + start.to_bytes(16 - ivl, "big"))
+    ctr0 = iv + start.to_bytes(16 - ivl, "big")
+    if case.get("carry"):
+        # a full counter block whose low 16-j bytes are about to roll over:
+        # the carry has to travel into byte j-1, wherever that is
+        j = case["carry"]
+        ctr0 = prg("ctrc%d" % case["s"], j) + b"\xff" * (15 - j) + b"\xfe"
+        if ctr0[j - 1] == 0xff:
+            ctr0 = ctr0[:j - 1] + b"\x7f" + ctr0[j:]
+        # (a 16-byte IV: the whole block counts, no counter field that
+        # could be reported exhausted)
+        c = cipherfactory.createAESCTR(bytearray(key), bytearray(ctr0),
+                                       ["python"])
     parts = chunks(pt, case["cuts"], 16)
     ct = b"".join(bytes(c.encrypt(bytearray(p))) for p in parts)
-    ctr0 = iv + start.to_bytes(16 - ivl, "big")
     want = raes.ctr_crypt(key, ctr0, pt, inc_bytes=16)
     if ct != want:
         return _res(case, False, True, "ctr differs")
@@ -587,6 +598,9 @@ def cases(draw, tier):
                  ctr=draw(st.one_of(st.none(), st.sampled_from(
                      [0, 1, 254, 255, 256, 65534, 65535, 2 ** 24 - 1,
                       2 ** 32 - 5]), st.integers(0, 2 ** 24))))
+        if draw(st.integers(0, 2)) == 0:
+            c["carry"] = draw(st.integers(1, 15))
+            c["n"] = max(c["n"], 40)
     elif f in AEADS:
         alen = draw(st.one_of(lens, st.sampled_from(
             [0xfeff, 0xff00, 0xff01, 2 ** 16, 2 ** 16 + 1])
@@ -689,6 +703,11 @@ def explicit(tier, seed):
     for f in AEADS:
         for alen in (0xfeff, 0xff00, 0xff01, 0xffff, 2 ** 16, 2 ** 16 + 1):
             yield {"f": f, "s": seed, "kl": 16, "n": 5, "alen": alen}
+    # AES-CTR: the carry into every byte of the counter block
+    for j in range(1, 16):
+        for kl in (16, 32):
+            yield {"f": "aes_ctr", "s": seed, "kl": kl, "n": 70, "ivlen": 8,
+                   "cuts": [16, 33], "ff": False, "ctr": None, "carry": j}
     # every PRF x version x label once
     for v in ([3, 0], [3, 1], [3, 2], [3, 3]):
         for prf in ("sha256", "sha384"):
